@@ -328,8 +328,15 @@ func c03Gen(t *rapid.T) c03Case {
 	}
 	for i := 0; i < nFiles; i++ {
 		kind := "file"
-		if rapid.IntRange(0, 4).Draw(t, fmt.Sprintf("symlink%d", i)) == 0 {
+		switch rapid.IntRange(0, 9).Draw(t, fmt.Sprintf("symlink%d", i)) {
+		case 0, 1:
 			kind = "symlink"
+		case 2:
+			kind = "fifo" // a non-directory entry is any entry that is not a directory
+		case 3:
+			kind = "socket"
+		case 4:
+			kind = "dangling"
 		}
 		c.Dir = append(c.Dir, DirEntry{Name: fresh(fmt.Sprintf("file%d", i)), Kind: kind})
 	}
@@ -408,6 +415,7 @@ func c03Fixed() []c03Case {
 	return []c03Case{
 		{Dir: []DirEntry{{Name: "a", Kind: "file"}, {Name: "d", Kind: "dir"}}, Subs: [][]string{{"INVOKE"}}, Internal: [][]string{{"INVOKE"}},
 			Order: []string{"INV", "E0.reg", "I0.reg", "R.next", "I0.next", "E0.next"}, QuietMs: 60},
+		{Dir: []DirEntry{{Name: "f", Kind: "fifo"}, {Name: "l", Kind: "dangling"}, {Name: "s", Kind: "socket"}}, Subs: [][]string{{"INVOKE"}, {}, {"INVOKE", "SHUTDOWN"}}, Order: []string{"E1.reg", "E0.reg", "E2.reg", "R.next", "E2.next", "INV", "E0.next", "E1.next"}, QuietMs: 60},
 		{Dir: []DirEntry{{Name: ".hidden", Kind: "file"}, {Name: "b", Kind: "symlink"}}, Subs: [][]string{{}, {"SHUTDOWN"}},
 			Order: []string{"E1.reg", "E0.reg", "E0.next", "E1.next", "INV", "R.next"}, QuietMs: 60},
 		{Order: []string{"R.next", "INV"}, QuietMs: 40},
